@@ -229,6 +229,8 @@ def run(rep, idx, tier):
 
 def own(rep, rule, c, env, r, target, value, what):
     ds = c.drivers_of(c.parse(target, env))
+    if not ds and target == "self.bus.sel" and sel_bitwise(rep, rule, c, env, r, what):
+        return
     if not ds:
         parts = c.overlapping(c.parse(target, env))
         if parts:
@@ -241,6 +243,36 @@ def own(rep, rule, c, env, r, target, value, what):
         rep.bad(rule, c.fi.site, what, f"{target} must be combinational", lines=[d.lineno for d in ds])
         return
     check_dl(rep, rule, c, what, ds, "0", [(r.case_k, value)], env)
+
+
+def sel_bitwise(rep, rule, c, env, r, what):
+    """bus.sel filled bit by bit: for j over the owner's select bits, for k in range(ratio): bus.sel[j * ratio + k] = sel[j].
+    The index j * ratio + k with 0 <= k < ratio visits every bit of the fanned-out vector exactly once, in the order of
+    Cat(s.replicate(ratio) for s in intr.sel)."""
+    SEL = c.parse("self.bus.sel")
+    fam = [(dom, t, ds) for dom, t, ds in c.targets_matching(lambda t: t[0] == 'sub' and t[1] == SEL and t[2][0] != 'slice')]
+    if len(fam) != 1:
+        return False
+    dom, t, ds = fam[0]
+    ratio = c.parse("intr.granularity // self.bus.granularity", env)
+    idx_e = c.norm(t[2])
+    loops = [fr[1] for fr in ds[0].gen if fr[0] == 'for']
+    inner = [L for L in (c.t.loops.get(l_) for l_ in loops) if L is not None and L.id != r.k[1]]
+    if len(inner) != 2 or dom != "comb" or len(ds) != 1:
+        return False
+    Lj = next((L for L in inner if L.seq is not None and c.norm(L.seq) == c.parse("intr.sel", env)), None)
+    Lk = next((L for L in inner if L.kind == 'range' and c.norm(L.bounds[0]) == ('const', 0) and c.norm(L.bounds[1]) == ratio), None)
+    if Lj is None or Lk is None or Lj.reversed or Lk.reversed:
+        return False
+    want_idx = c.norm(('bin', '+', ('bin', '*', ('idx', Lj.id), ratio), ('idx', Lk.id)))
+    if idx_e != want_idx:
+        rep.unk(rule, c.fi.site, what, f"bus.sel is filled bit by bit at index {ir.show(idx_e)[:120]}; expected {ir.show(want_idx)[:120]}")
+        return True
+    want_val = [c.norm(('sub', c.parse("intr.sel", env), ('idx', Lj.id))), ('item', Lj.id, (1,)), ('item', Lj.id, ())]
+    env2 = dict(env)
+    check_dl(rep, rule, c, what + " (filled bit by bit: bus.sel[j * ratio + k] = sel[j], 0 <= k < ratio)", ds, "0",
+             [(r.case_k, c.norm(ds[0].value) if c.norm(ds[0].value) in want_val else want_val[0])], env2)
+    return True
 
 
 def stall(rep, c, env, r):
